@@ -6,6 +6,7 @@ Exit codes of a property check: 0 = every obligation mapped to the property disc
 error (timeout, tool failure, vacuity guard) -- never reported as a violation.
 """
 import concurrent.futures as cf
+import threading
 import hashlib
 import json
 import os
@@ -561,8 +562,25 @@ def check_property(prop, tier, only_units=None, keep=False, jobs=None):
     results = []
     try:
         jobs = jobs or int(os.environ.get("VERIF_JOBS", "14"))
+        # memory budget: units known to need many GB declare mem_budget_gb (their measured peak); they are admitted only while the
+        # sum over the running ones stays under VERIF_MEM_GB (default 40) - otherwise the kernel's OOM killer decides
+        budget = float(os.environ.get("VERIF_MEM_GB", "40"))
+        cond = threading.Condition()
+        used = [0.0]
+        def run_budgeted(u):
+            need = min(float(u.get("mem_budget_gb", 0)), budget)
+            with cond:
+                while used[0] + need > budget:
+                    cond.wait()
+                used[0] += need
+            try:
+                return run_unit(u, tier, scratch, keep)
+            finally:
+                with cond:
+                    used[0] -= need
+                    cond.notify_all()
         with cf.ThreadPoolExecutor(max_workers=jobs) as ex:
-            futs = {ex.submit(run_unit, u, tier, scratch, keep): u for u in units}
+            futs = {ex.submit(run_budgeted, u): u for u in sorted(units, key=lambda u: -float(u.get("mem_budget_gb", 0)))}
             for fu in cf.as_completed(futs):
                 u = futs[fu]
                 try:
